@@ -45,7 +45,8 @@ PROPS = {
         "claim": "PARTIAL proof + metamorphic correspondence. Proved for all directive lists and all permutations of them: ofList_spec (the builder's days are sorted by date and each day holds "
                  "exactly the directives of its date, per kind, in input order), C05_same_dates, C05_same_day_content (per day and kind the contents are permutations of each other), "
                  "C05_journal_period_perm (the window-clipping journal period is order-independent), C05_cells_perm (every report cell is invariant under permutation of the report inserts). "
-                 "Not mechanised: commutation of the checker/pipeline steps inside a (day, kind) block. Decided on every run: each journal is written in several directive orders and include-tree "
+                 "Properties/C05Verdict.lean: verdict_perm / C05_verdict_perm (the checker's accept/reject verdict is the same for every permutation of the directives; only the NAMED offender may "
+                 "differ, witness C05_offender_may_differ), C05_days_equiv. Not mechanised: invariance of the SET of report inserts of the balance pipeline under reordering within a day. Decided on every run: each journal is written in several directive orders and include-tree "
                  "layouts (1-5 files, depth <= 3, ./ and ../ paths, sub-directories), loaded by the REAL concurrent loader under different schedule-perturbation seeds (-tags verif), and check "
                  "verdict, balance output (byte for byte) and print output (same directives per date, identical transaction sequence) are compared across all variants and with the model run on the "
                  "permuted list.",
@@ -62,8 +63,10 @@ PROPS = {
                  "valued as quantity if in V, else Truncate8(quantity x price of its own day)), C03_missing_price_is_error / C03_missing_price_fails_day (a needed absent price fails the day: no number), "
                  "C03_adjustment_shape (daily adjustment = Truncate8((p_d - p_{d-1}) x Q_{d-1})), C03_gain_account (booked between the account and Income:<its path> only), "
                  "C03_revaluation_error_if_price_vanished, C03_telescope (the exact identity Q_{d-1}p_{d-1} + (p_d - p_{d-1})Q_{d-1} + sum q_i p_d = Q_d p_d) and C03_trunc_error (each Truncate8 loses "
-                 "less than one unit of the 8th decimal). NOT mechanised: the induction over days composing the last two into |shown - (MTM_D - MTM_{F-1})| <= steps x 1e-8. That bound is decided "
-                 "on every run: Spec.mtm (exact, in Lean: sum over commodities of summed quantity x Prices.normalize price, no truncation) is compared with every A/L cell of the REAL "
+                 "less than one unit of the 8th decimal); Properties/C03Bound.lean: C03_trunc_close(_abs) (|Truncate_n r - r| < 10^-n), C03_mtm_bound and C03_mtm_bound_window (for every consistent single-position "
+                 "valuation trace mirroring Valuate: |W - Q x p| <= steps x 1e-8, also relative to a window start), C03_adjustment_term / C03_adjustment_posting / C03_booked_term (the model's adjustment and booking "
+                 "values ARE the trace's terms). NOT mechanised: the association-list bookkeeping projecting Balance.valuateDay's state onto one position (so the bound is proved for the trace, and "
+                 "tied to the full model term by term). On every run Spec.mtm (exact, in Lean: sum over commodities of summed quantity x Prices.normalize price, no truncation) is compared with every A/L cell of the REAL "
                  "`knut balance -v V --digits 10` report; valued reports are also compared byte for byte with the pipeline model. Known finding: with --from after a position was "
                  "acquired the report shows the value change inside the window, not the absolute mark-to-market (design behaviour).",
         "note": "Trusted: Lean kernel; axioms propext, Classical.choice, Quot.sound; price normalisation is C12's model (Knut.Model.Prices); text-table parsing of the harness (indentation -> account path).",
@@ -76,8 +79,8 @@ PROPS = {
         "lean": ["Knut.Properties.C09", "Knut.Properties.C09Decimal"],
         "level": "proof",
         "claim": "PARTIAL proof + full correspondence. Proved (all bookings, all amounts): C09_booking_normal_form (rebuilding the booking that print writes from the debit-side posting yields "
-                 "the identical posting pair), C09_printed_quantity_nonneg, C09_reprint_same_line, C09_targets_line. Not mechanised: the text-level round trip parse(print J) (needs the "
-                 "print-then-parse lemmas of the parser model, built for C08) and decimal/date re-reading. Those clauses are decided on every run on the REAL binary: `knut print` output is "
+                 "the identical posting pair), C09_printed_quantity_nonneg, C09_reprint_same_line, C09_targets_line. Properties/C09Decimal.lean: C09_dec_scaled_roundtrip, C09_dec_string_roundtrip (parseDec (showDec r) = r for every decimal rational), C09_dec_string_shortest, "
+                 "closure of decimals under +, x, negation. Not mechanised: the text-level round trip parse(print J) of whole directives (needs the print-then-parse lemmas of the parser model, built for C08). Those clauses are decided on every run on the REAL binary: `knut print` output is "
                  "compared byte for byte with the Lean model of journal.Print, the printed journal is fed back to `knut print` (must be accepted and reproduce itself byte for byte) and "
                  "`knut balance` under a random flag vector must give byte-identical output on original and printed journal.",
         "note": "Trusted: Lean kernel; axioms propext, Classical.choice, Quot.sound; sort.Slice modelled as a stable sort (transactions comparing equal print identically unless their "
@@ -88,7 +91,7 @@ PROPS = {
         "assumptions": [],
     },
     "C02": {
-        "lean": ["Knut.Properties.C02"],
+        "lean": ["Knut.Properties.C02", "Knut.Properties.C02Close"],
         "level": "proof",
         "claim": "Spec.ledgerEntries (Spec/Ledger.lean) defines the report independently of the pipeline: window bookings mapped/filtered/aligned plus, with closing, the transfer of "
                  "each income/expense/equity total booked in [previous closing day, s) to Equity:Equity at every shown period start. Proved for all journals and flags: C02_noclose (without "
@@ -165,8 +168,8 @@ PROPS = {
     "C08": {
         "lean": ["Knut.Properties.C08"],
         "level": "proof",
-        "claim": "Lean theorems over the model of lib/syntax/printer (extract the fields, then render; same format strings) and formatRunner.formatFile: C08_unparseable_untouched, C08_gaps_verbatim (output = the input's own gap slices interleaved with the re-rendered directives). The print-then-parse round trip (C08_reparse_same_fields, C08_idempotent, C08_format_total) is being staged; see Properties/C08.lean for the exact state. Tie: syntax.FormatFile in-process and `knut format` on temp files are compared byte for byte with the model; the Lean predicate formatOK (same directives and fields, gaps byte for byte) is evaluated on the real trees of input and output; reparse and format-twice are checked on the real code for every case.",
-        "note": "Trusted: Lean kernel; axioms propext, Classical.choice, Quot.sound; fmt padding (%-*s, %10s count runes) and strings.Join as modelled (compared byte for byte); "
+        "claim": "Lean theorems for ALL byte strings over the models of lib/syntax/parser, lib/syntax/printer (extract the fields, then render; same format strings, fmt padding counted in runes) and formatRunner.formatFile: C08_unparseable_untouched; C08_format_total (formatting a parsed file never violates a slice bound); C08_gaps_verbatim (output = the input's own gap slices interleaved with the re-rendered directives); C08_reparse_same_fields (the output parses, to the same number and kinds of directives with byte-identical dates, accounts, amounts, commodities, descriptions/paths, @accrue fields and @performance targets, annotation order normalised; the gaps of the output are the gaps of the input); C08_idempotent (format of the output is the output); C08_command (the disjunction for the command). All stages closed (open/close/price/include/single-line assertion, transactions with both addons in any order, multi-line assertions incl. the one-balance form); no _partial theorem remains. Proof: token-level grammar of every field with soundness and completeness of each parser function, decomposition of a successful ParseFile run into items, replay of the main loop on the rendered tokens, UTF-8 self-delimitation for re-decoding. Tie: syntax.FormatFile in-process and `knut format` on temp files are compared byte for byte with the model; the Lean predicate formatOK (same directives and fields by semFlat incl. macro-account kinds, gaps byte for byte) is evaluated on the two real trees; reparse and format-twice are checked on the real code for every case; unparseable files are checked untouched through the CLI.",
+        "note": "The theorems compare typed field views (viewDirective); the monitor compares the untyped semFlat of the dumped trees (which also carries the macro-account kind) - the two formalisations of \"same fields\" are not proved equivalent. Trusted: Lean kernel; axioms propext, Classical.choice, Quot.sound; fmt padding (%-*s, %10s count runes) and strings.Join as modelled (compared byte for byte); "
                 "atomic.WriteFile is C18's subject; cobra argument handling and multierr are glue (exit status compared).",
         "rule": "streams: corpus (repository journals); journal (grammar-based layouts: tabs, CRLF, trailing blanks, multi-line descriptions, Unicode account names and digits, "
                 "both addon orders, multi-line assertions, missing final newline); stress (layouts the formatter must normalise: amounts wider than 10, one-balance multi-line "
@@ -209,7 +212,8 @@ PROPS = {
         "claim": "Lean theorems for all windows, all six intervals and all --last values over the model of lib/common/date: periods are consecutive, "
                  "cover the window exactly, are pairwise disjoint, lie within one calendar unit, start at the window start or a unit start, --last n keeps the n "
                  "most recent, Align attributes inside/before/after dates as stated, inverted windows give no (or one empty) period; the loop's termination is a "
-                 "well-founded recursion. The calendar model (year/month/day/weekday from a day number) is tied to Go's time package by an exhaustive comparison "
+                 "well-founded recursion; Properties/C11Monitor.lean: partitionOK_of_model and alignSpec_of_model (the monitor predicates hold of the model's output for every window, interval and --last, "
+                 "so a monitor alarm on the real code is a deviation from proved behaviour). The calendar model (year/month/day/weekday from a day number) is tied to Go's time package by an exhaustive comparison "
                  "over every day 0001-01-01..9999-12-31 in the thorough tier; partitions and Align by differential runs of date.NewPartition; the property "
                  "predicate (Lean partitionOK/alignSpec) is evaluated on the real output of every case.",
         "note": "Trusted: Lean kernel; axioms propext, Classical.choice, Quot.sound; Go time package outside the compared range; sort.Search modelled as linear search; "
